@@ -2209,7 +2209,13 @@ func (c *RemoteClient) handleMessage(ctx context.Context, m *Message) error {
 			}, "Wrong message ID in tx message")
 		} else {
 			c.nextMessageID.Store(msg.ID + 1)
-			c.addHandlerMessage(ctx, m)
+			if err := c.addHandlerMessage(ctx, m); err != nil {
+				// Not delivered to the handlers, so it is still the next expected message.
+				c.nextMessageID.Store(msg.ID)
+				logger.WarnWithFields(ctx, []logger.Field{
+					logger.Uint64("message_id", msg.ID),
+				}, "Failed to queue tx message for handlers : %s", err)
+			}
 		}
 
 	case *TxUpdate:
@@ -2226,7 +2232,13 @@ func (c *RemoteClient) handleMessage(ctx context.Context, m *Message) error {
 			}, "Wrong message ID in tx update message")
 		} else {
 			c.nextMessageID.Store(msg.ID + 1)
-			c.addHandlerMessage(ctx, m)
+			if err := c.addHandlerMessage(ctx, m); err != nil {
+				// Not delivered to the handlers, so it is still the next expected message.
+				c.nextMessageID.Store(msg.ID)
+				logger.WarnWithFields(ctx, []logger.Field{
+					logger.Uint64("message_id", msg.ID),
+				}, "Failed to queue tx update message for handlers : %s", err)
+			}
 		}
 
 	case *Headers:
